@@ -393,15 +393,28 @@ def replay(cex):
     if case['k'] == 'testbench':
         # the real simulator on plain ints/dicts, the real exporter, the parsed text checked concretely
         mv = cex.get('model', {}).get('inputs', {})
-
-        def inputs_of(w, t):
-            x = mv.get(w.name, {})
-            val = x.get(str(t), x.get(t))
-            return ((t * 5 + 3) & w.bitmask) if val is None else val
-        ob = Obligations(PROP, case, 30000)
-        run_testbench(case, ob, site_of(case), concrete_inputs=inputs_of)
-        bad = [x['obligation'] for x in ob.sat]
-        return bool(bad), 'testbench from a concrete %s run of the real code: failing %r' % (case['sim'], bad[:6])
+        K = case['K']
+        # the counterexample's own inputs first, then a few input shapes (constant, first == last, all ones): text emitters
+        # may depend on value patterns the symbolic run only sees as placeholders
+        patterns = [lambda w, t: (t * 5 + 3) & w.bitmask, lambda w, t: 0, lambda w, t: w.bitmask,
+                    lambda w, t: (3 if t in (0, K - 1) else 1 + t) & w.bitmask, lambda w, t: (1 if t == 0 else 0) & w.bitmask]
+        tried = []
+        for pi, pat in enumerate([None] + patterns):
+            def inputs_of(w, t, pat=pat):
+                if pat is None:
+                    x = mv.get(w.name, {})
+                    val = x.get(str(t), x.get(t))
+                    return ((t * 5 + 3) & w.bitmask) if val is None else val
+                return pat(w, t)
+            if pat is None and not mv:
+                continue
+            ob = Obligations(PROP, case, 30000)
+            run_testbench(case, ob, site_of(case), concrete_inputs=inputs_of)
+            bad = [x['obligation'] for x in ob.sat]
+            tried.append(pi)
+            if bad:
+                return True, 'testbench from a concrete %s run of the real code (input pattern %d): failing %r' % (case['sim'], pi, bad[:6])
+        return False, 'testbench from concrete %s runs of the real code (input patterns %r): nothing fails' % (case['sim'], tried)
     if cex.get('structural'):
         ob = Obligations(PROP, case, 30000)
         run_case(case, ob, 'quick')
